@@ -134,7 +134,16 @@ class ListMonitor:
                             spanning.add(d.get("id"))
                 except KeyError:
                     pass   # a dangling placeholder (left behind by an earlier, already reported step)
+        # the list object the step works through: the fresh one, or an outdated second handle fetched earlier
+        import accsession
+        L = accsession.live(st)
+        hand = L.get("stale") if st.args.get("stale_handle") else next((L[k] for k in ("lst", "dl", "l2") if k in L), None)
+        try:
+            hand_uuids = ol.uuids(hand) if hand is not None else None
+        except Exception:  # noqa: BLE001
+            hand, hand_uuids = None, None
         self._pre = {
+            "hand": hand, "hand_uuids": hand_uuids,
             "view": view, "uuids": uu, "kids": [k for k, _ in kids], "spanning": spanning, "root_victim": root_victim,
             "snap": ol.tree_snapshot(model._loader),
             "hashes": ol.frag_hashes(model._loader), "index": ol.index_dump(model._loader),
@@ -197,9 +206,14 @@ class ListMonitor:
                 # whichever list object the caller uses
                 self.find(rec, f"unique-accepts-duplicate|{kind}|{st.op}", f"{st.op} of a member that is already in the unique relation was accepted")
                 return
-            if st.op in ("insert", "append", "setitem") and x_uuid in pre["uuids"]:
-                return  # an object that is already a member (move within the list / set-like link list): outside the stated domain
-            want = py_apply(pre["uuids"], st.op, st.args, x_uuid)
+            # the Python list the statement compares with is the list object IN HAND: for an outdated second handle
+            # that is the handle's own content, not the relation's current content
+            base = pre["hand_uuids"] if (st.args.get("stale_handle") and pre.get("hand_uuids") is not None) else pre["uuids"]
+            if st.op in ("insert", "append", "setitem") and (x_uuid in pre["uuids"] or x_uuid in base) and not (kind == "AttrProxyAccessor" and st.op != "setitem"):
+                # a move within a containment list / a set-like link-element list: outside the stated domain.
+                # (An attribute-link list is a plain sequence: the same object twice is legal and IS in the domain.)
+                return
+            want = py_apply(base, st.op, st.args, x_uuid)
             try:
                 fresh = ol.uuids(st.rel.get())
             except Exception as e:  # noqa: BLE001
@@ -208,6 +222,22 @@ class ListMonitor:
             if fresh != want:
                 self.find(rec, f"fresh-view-differs|{kind}|{st.op}|{ic}|{'interleaved' if pre['interleaved'] else 'plain'}",
                           f"{st.op}({i if i is not None else ''}) on {n} elements: fresh view {short(fresh)} but a Python list gives {short(want)}")
+            # the list object in hand mirrors the edit
+            if pre.get("hand") is not None and st.op in ("insert", "append", "setitem", "delitem", "remove"):
+                try:
+                    inhand = ol.uuids(pre["hand"])
+                except Exception:  # noqa: BLE001
+                    inhand = None
+                self.out.hit("list-in-hand.compared")
+                if inhand is not None and inhand != want:
+                    self.find(rec, f"list-in-hand-differs|{kind}|{st.op}",
+                              f"{st.op}({i if i is not None else ''}): the list object in hand shows {short(inhand)} but a Python list gives {short(want)} (fresh view {short(fresh)})")
+            # … and the stored attribute of an attribute-link list says the same
+            if kind == "AttrProxyAccessor" and getattr(st.rel.acc, "attr", None):
+                import re as _re
+                raw = _re.findall(r"#([A-Za-z0-9_-]+)", st.rel.owner._element.get(st.rel.acc.attr, ""))
+                if raw != want:
+                    self.find(rec, f"stored-attribute-differs|{kind}|{st.op}", f"{st.op}: attribute {st.rel.acc.attr} stores {short(raw)} but a Python list gives {short(want)}")
             self.frame(rec, model, pre, kind, allowed_new=False)
             plain_members = set(pre["view"]) <= set(pre["kids"])   # no member is the root of its own fragment file
             if st.op == "assign" and st.rel.contain and plain_members:
@@ -447,6 +477,137 @@ def unique_scenarios(ctx: Ctx, out: Outcome, key: str, limit: int):
             break
 
 
+def link_multiplicity_scenarios(ctx: Ctx, out: Outcome, key: str, limit: int):
+    """Link-element relations whose link elements are NOT one-to-one with the list members (a target referenced by two
+    link elements shows up once; a link element without target is skipped) – found in the model, and made through the
+    API on non-unique relations: an object inserted at EVERY index must land where a Python list puts it, in the list
+    in hand and in a freshly fetched list; then it is removed again."""
+    from capellambse.model import _descriptors as D
+
+    model = ol.load(ctx, key)
+    rng = random.Random(f"c08m:{ctx.seed}:{key}")
+    found = []
+    for obj in ol.all_objects(model):
+        cls = type(obj)
+        for attr in dir(cls):
+            if attr.startswith("_"):
+                continue
+            acc = getattr(cls, attr, None)
+            if type(acc) is not D.LinkAccessor or acc.aslist is None or not acc.tag:
+                continue
+            nrefs = sum(1 for c in obj._element.iterchildren(acc.tag) if ol.xtype_of(c) in acc.xtypes)
+            if nrefs < 2:
+                continue
+            try:
+                lst = getattr(obj, attr)
+            except Exception:  # noqa: BLE001
+                continue
+            rel = objops.Relation(obj, attr, "LinkAccessor", acc)
+            if nrefs != len(lst):
+                found.append((rel, "natural"))
+            elif not acc.unique and len(found) < 3 * limit:
+                found.append((rel, "made"))
+    rng.shuffle(found)
+    found.sort(key=lambda t: t[1] != "natural")   # the ones the model file itself contains first
+    n = 0
+    for rel, how in found:
+        if n >= limit:
+            break
+        try:
+            if how == "made":
+                h0 = rel.get()
+                h0.append(h0[0])   # a second link element to the first member: the view does not change
+                if sum(1 for c in rel.owner._element.iterchildren(rel.acc.tag) if ol.xtype_of(c) in rel.acc.xtypes) == len(rel.get()):
+                    continue
+            cands = [c for c in objops.candidates_for(model, rel, rng, 12) if c not in rel.get()]
+        except Exception:  # noqa: BLE001
+            continue
+        if not cands:
+            continue
+        x = rng.choice(cands)
+        n += 1
+        out.hit(f"link-multiplicity.{how}")
+        size = len(rel.get())
+        for i in ([0, size] + list(range(1, size)) + [-1])[: ctx.pick(8, 40)]:
+            try:
+                h = rel.get()
+                base = ol.uuids(h)
+                h.insert(i, x)
+            except Exception as e:  # noqa: BLE001
+                out.hit(f"link-multiplicity.insert-rejected.{type(e).__name__}")
+                continue
+            want = list(base)
+            want.insert(i, x.uuid)
+            fresh, inhand = ol.uuids(rel.get()), ol.uuids(h)
+            out.case(("link-multiplicity", key, rel.key(), idx_class(i, size)), {"model": key, "relation": rel.key(), "i": i, "n": size, "how": how})
+            rep = {"kind": "link-multiplicity", "model": key, "relation": rel.key(), "owner": getattr(rel.owner, "uuid", None), "i": i}
+            if fresh != want:
+                sig = f"fresh-view-differs|LinkAccessor|insert|{idx_class(i, size)}|link-elements-not-one-to-one"
+                out.find(sig, f"{key}: {rel.key()} of {getattr(rel.owner, 'uuid', None)} ({how}): insert({i}, x) on {size} members: fresh view {short(fresh)} but a Python list gives {short(want)}", dict(rep, failure=sig))
+            if inhand != want:
+                sig = "list-in-hand-differs|LinkAccessor|insert|link-elements-not-one-to-one"
+                out.find(sig, f"{key}: {rel.key()} ({how}): insert({i}, x): list in hand {short(inhand)} but a Python list gives {short(want)}", dict(rep, failure=sig))
+            try:
+                rel.get().remove(x)
+            except Exception:  # noqa: BLE001
+                break
+
+
+def member_again_scenarios(ctx: Ctx, out: Outcome, key: str, limit: int):
+    """Attribute-link lists are plain sequences: offering an object that already is a member (append(lst[0]),
+    insert(0, lst[-1])) must give what a Python list gives – in the list in hand, in a freshly fetched list and in
+    the stored attribute; a second edit through the same list object must not lose anything."""
+    import re as _re
+
+    model = ol.load(ctx, key)
+    rng = random.Random(f"c08a:{ctx.seed}:{key}")
+    rels = [r for r in objops.discover(model, rng, max_objs=ctx.pick(400, 1200))
+            if r.kind == "AttrProxyAccessor" and not (getattr(r.acc, "list_extra_args", None) or {}).get("fixed_length")]
+    seen_acc: set = set()
+    n = 0
+    for r in rels:
+        if n >= limit:
+            break
+        try:
+            h = r.get()
+        except Exception:  # noqa: BLE001
+            continue
+        if not len(h) or id(r.acc) in seen_acc:
+            continue
+        seen_acc.add(id(r.acc))
+        n += 1
+        orig = list(h)
+        want = ol.uuids(h)
+        out.hit("member-again.scenario")
+        for label, fn, py in (("append-first-member", lambda h=h: h.append(h[0]), lambda l: l + [l[0]]),
+                              ("insert-last-member-at-front", lambda h=h: h.insert(0, h[len(h) - 1]), lambda l: [l[-1]] + l),
+                              ("append-new-after-duplicates", None, None)):
+            if fn is None:
+                cands = [c for c in objops.candidates_for(model, r, rng, 8) if c not in h]
+                if not cands:
+                    continue
+                x = cands[0]
+                fn, py = (lambda h=h, x=x: h.append(x)), (lambda l, x=x: l + [x.uuid])
+            try:
+                fn()
+            except Exception as e:  # noqa: BLE001
+                out.hit(f"member-again.rejected.{type(e).__name__}")
+                break
+            want = py(want)
+            fresh, inhand = ol.uuids(r.get()), ol.uuids(h)
+            raw = _re.findall(r"#([A-Za-z0-9_-]+)", r.owner._element.get(r.acc.attr, ""))
+            out.case(("member-again", key, r.key(), label), {"model": key, "relation": r.key(), "step": label, "n": len(want)})
+            rep = {"kind": "member-again", "model": key, "relation": r.key(), "owner": getattr(r.owner, "uuid", None)}
+            for what, got in (("list-in-hand", inhand), ("fresh-view", fresh), ("stored-attribute", raw)):
+                if got != want:
+                    sig = f"{what}-differs|AttrProxyAccessor|{label}"
+                    out.find(sig, f"{key}: {r.key()} of {getattr(r.owner, 'uuid', None)}: after {label} the {what} is {short(got)}, a Python list holds {short(want)}", dict(rep, failure=sig))
+        try:
+            setattr(r.owner, r.attr, orig)
+        except Exception:  # noqa: BLE001
+            pass
+
+
 def shared_tag_scenarios(ctx: Ctx, out: Outcome, key: str, limit: int, req=None, impl=None, meta=None):
     """Link-element relations of one class that store their links under the SAME XML tag (told apart by xsi:type):
     re-assigning or deleting one of them must leave the sibling relations exactly as they were."""
@@ -516,6 +677,7 @@ def run(ctx: Ctx) -> Outcome:
     out = Outcome(rule=RULE)
     objops.SAME_RESOURCE_MOVES = True
     objops.PREFER_INTERLEAVED = 0.4
+    objops.MEMBER_AGAIN = 0.25
     req: list = []
     impl: list = []
     meta: list = []
@@ -526,6 +688,8 @@ def run(ctx: Ctx) -> Outcome:
     for key in (["t52", "t50", "write"] if ctx.thorough else ["t50"]):
         unique_scenarios(ctx, out, key, ctx.pick(6, 30))
         shared_tag_scenarios(ctx, out, key, ctx.pick(6, 30), req, impl, meta)
+        link_multiplicity_scenarios(ctx, out, key, ctx.pick(5, 30))
+        member_again_scenarios(ctx, out, key, ctx.pick(8, 40))
     # model-only sweep: every index on synthetic child lists (also covered by the theorems)
     rng = random.Random(f"c08:{ctx.seed}")
     for _ in range(ctx.pick(300, 3000)):
@@ -554,6 +718,12 @@ def run(ctx: Ctx) -> Outcome:
 def replay(ctx: Ctx, case: dict):
     out = Outcome()
     objops.SAME_RESOURCE_MOVES = True
+    objops.PREFER_INTERLEAVED = 0.4
+    objops.MEMBER_AGAIN = 0.25
+    if case.get("kind") == "member-again":
+        member_again_scenarios(ctx, out, case["model"], 60)
+    if case.get("kind") == "link-multiplicity":
+        link_multiplicity_scenarios(ctx, out, case["model"], 40)
     plan = {k: ns for k, _, ns in THOROUGH + QUICK}
     S.run_history(ctx, out, case["model"], max(plan.get(case["model"], 40), case.get("step", 0) + 1),
                   [ListMonitor(out, ctx, [], [], []), ReloadMonitor(out, ctx)], weights=W, hist_id=case["hist"])
